@@ -461,6 +461,13 @@ func cases(r *ev.Run, forC04 bool) []Case {
 		out = append(out, Case{LongN: n, Comp: []int{n}, Backend: hx.BPlus, Cache: 300, RestartAt: -1})
 		out = append(out, Case{LongN: n, Comp: []int{n/2 + 1, n - n/2 - 1}, Backend: hx.BPlus, Cache: 300, RestartAt: -1})
 	}
+	// more than one page (1000) of recovery tiles, then a restart, then one more insertion (C04 only)
+	if forC04 {
+		out = append(out, Case{LongN: 1101, Comp: []int{550, 550, 1}, Backend: hx.Rocks, Cache: 300, RestartAt: 2})
+		if r.Thorough() {
+			out = append(out, Case{LongN: 2301, Comp: []int{1150, 1150, 1}, Backend: hx.Rocks, Cache: 300, RestartAt: 2})
+		}
+	}
 	// a bulk large enough to evict not-yet-persisted history nodes from the LRU (capacity 300)
 	bulkN := 700
 	if r.Thorough() {
